@@ -7,6 +7,8 @@ import ClockBound.Model.OraclesD
 import ClockBound.Model.SeqlockSim
 import ClockBound.Model.DriverPoller
 import ClockBound.Model.DriverWorld
+import ClockBound.Model.Crash
+import ClockBound.Model.DriverThreads
 namespace ClockBound.Driver
 open ClockBound
 
@@ -336,6 +338,34 @@ def slxLine (args impl : List String) : String :=
     s!"{m} | {v} | {String.intercalate "," tags}"
   | _ => "bad-op | |"
 
+/-- crashpt <prior> <k> <k1> <k2> => ev … ; crashed … ; restarted … -/
+def crashLine (args impl : List String) : String :=
+  let parsed : Option (Crash.Prior × List String) := match args with
+    | "missing" :: r => some (.missing, r) | "empty" :: r => some (.empty, r) | "garbage" :: r => some (.garbage, r)
+    | "wiped" :: r => some (.wiped, r)
+    | "valid" :: g :: k :: r => (do some (Crash.Prior.valid (← g.toNat?) (← k.toNat?), r))
+    | _ => none
+  match parsed with
+  | some (p, [k, k1, k2]) =>
+    match k.toNat?, k1.toNat?, k2.toNat? with
+    | some k, some k1, some k2 =>
+      let m := Crash.predict p k k1 k2
+      -- parse the implementation's answer: fields are `name:value` tokens
+      let field (n : String) : String := ((impl.find? (fun t => t.startsWith (n ++ ":"))).map (fun t => (t.drop (n.length + 1)).toString)).getD "?"
+      let atts := impl.filter (fun t => t.startsWith "attached:")
+      let evName := match impl with | "ev" :: e :: _ => e | _ => "?"
+      let len1 : Int := (field "file").toInt?.getD (-2)
+      let len2 : Int := (field "len").toInt?.getD (-2)
+      let att1 : String := ((atts[0]?).map (fun t => (t.drop 9).toString)).getD "?"
+      let att2 : String := ((atts[1]?).map (fun t => (t.drop 9).toString)).getD "?"
+      let o : Crash.Observed := ⟨evName, field "open", len1, att1, field "inode_same" == "1", len2, field "fresh", att2⟩
+      let v := verdict "C04" true (C04.HoldsFile p k1 k2 o)
+      let tags := (if p.file.usable then ["priorUsable"] else ["priorUnusable"]) ++
+        (if m.ev != "end" then ["crash"] else ["complete"]) ++ (if m.ev.startsWith "wipe" then ["crashInWipe"] else [])
+      s!"{m.text} | {v} | {String.intercalate "," tags}"
+    | _, _, _ => "bad-op | |"
+  | _ => "bad-op | |"
+
 def processLine (line : String) : String :=
   let parts := line.splitOn " => "
   let req0 := (parts.headD "").trimAscii.toString.splitOn " " |>.filter (· ≠ "")
@@ -350,6 +380,8 @@ def processLine (line : String) : String :=
   | "upd" :: args => updLine args impl
   | "gen" :: args => genLine args impl
   | "sl" :: args => slLine args impl
+  | "crashpt" :: args => crashLine args impl
+  | "thr" :: args => (DriverT.line "thr" args impl).getD "bad-op | |"
   | "slx" :: args => slxLine args impl
   | "slaba" :: _ =>
     -- K1 replay on the real code only (a 360 000-step execution is not simulated by the model): the
